@@ -77,6 +77,10 @@ def generate(rng, tier):
         if rng.random() < 0.3:
             tags.insert(rng.randrange(len(tags)), 0)
         yield {"fam": "infer", "tags": tags, "variant": 0, "pool": "equal"}
+    for n in (1, 2, 3):
+        for tags in itertools.product([0, 1, 2, 3, 4], repeat=n):
+            if 2 in tags:
+                yield {"fam": "infer", "tags": list(tags), "variant": 0, "pool": "huge"}
     for i in range(3000 if tier == "quick" else 40000):
         yield {"fam": "result", "op": rng.choice(["add", "mul", "truediv", "radd", "join", "joinwide", "joinwide", "aggwide", "aggregate", "csv", "neg", "window", "scalar", "scalar", "rscalar", "tscalar", "dateadd", "dateadd", "datesub", "datecmp", "datejoin", "dateagg"]),
                "a": [rng.choice([0, 1, 2, 3]) for _ in range(rng.randint(1, 5))], "seed": rng.randint(0, 10**6)}
@@ -183,6 +187,10 @@ def _values(spec):
     if spec.get("pool") == "equal":
         return [EQUAL_POOL[c] for c in spec["tags"]]
     vals = [value_of(c, spec.get("variant", 0) + i) for i, c in enumerate(spec["tags"])]
+    if spec.get("pool") == "huge":
+        # ints beyond float range: they are ints all the same (kind int; they belong to a float / complex vector by the widening
+        # rule without being convertible)
+        vals = [((-1) ** i) * 10 ** (400 + i) if type(x) is int else x for i, x in enumerate(vals)]
     for i in spec.get("sub", ()):
         if i < len(vals) and spec["tags"][i] in SUB_POOL:
             vals[i] = SUB_POOL[spec["tags"][i]]
